@@ -127,6 +127,7 @@ inductive Op
   | setResponse (cf : Nat) (hasBody : Bool) (inp : List Item) -- ResponseWriter.SetResponse
   | observe | obsOpts | obsReq | obsCancel                    -- an observation registered with the object as request
   | recycle                                                   -- back to the message pool and out again
+  | recv (inp : List Item)                                    -- a message from the pool into which a datagram with these options (wire order) is unmarshalled
   | notify (etag : Bytes)                                     -- the next notification of the observation, with this ETag
   | build (kind : String) (path : Bytes) (cf : Nat) (hasBody : Bool) (spare : Nat) (inp : List Item)  -- request builders
   | clone | swap | reset
@@ -319,6 +320,11 @@ def judgeStep (st : RefState) (op : Op) (ob : Obs) : String × RefState :=
   | .recycle =>
     let st' := { st with cur := ⟨[], st.cur.rem.map (fun _ => st.bufSize)⟩ }
     if ob.items != [] then ("violates list-equals-reference: a message taken from the pool is not empty", st') else ("ok", st')
+  | .recv inp =>
+    -- a received message: its list is the list that was on the wire (ascending there by construction of the format),
+    -- whatever the message held before; from here on it is edited like any other and the values it arrived with are
+    -- "unaffected by later edits or internal buffer growth" like any stored value
+    judgeEdit st ⟨[], false, resetTo inp, 0⟩ ob
   | .observe =>
     if ob.items != l then ("violates query-changed-list: registering an observation changed the request's option list", st)
     else if registers l then
